@@ -46,11 +46,15 @@ func (fri *filteringRefIterator) Next(rec record) (bool, error) {
 				return false, err
 			}
 
+			name := ref.RefName
 			ok, err := it.NextRef(ref)
-
-			// XXX !ok
-			if !ok || err != nil {
+			if err != nil {
 				return false, err
+			}
+			if !ok || ref.RefName != name {
+				// The ref was deleted in a newer table; the
+				// seek ran past it.
+				continue
 			}
 		}
 
